@@ -74,12 +74,12 @@ example : eqC (.binop .lt (rd sJ) (rd sN)) (.binop .le (.binop .add (rd sJ) (num
 
     `_partial`: `inline` (hence the theorem) covers callee bodies without nested calls and
     actuals that are control expressions, whole buffers or windows (`y[i]` passed as a scalar is
-    not covered — `replace` never produces it).  Well-formedness needed (`inlineWf`, a computable
-    check evaluated on every real instance by the driver): formals pairwise distinct; no formal
-    mentioned by an actual; no actual reads the configuration; the names bound in the callee's
-    body are not mentioned by the actuals and not rebound inside their own scope (checked by
-    running the matcher on the inliner's output, not assumed).  The real `DoInline` renames the
-    bound names to fresh copies (`Alpha_Rename`); the model keeps them. -/
+    not covered — `replace` never produces it).  Well-formedness needed (`inlineWf`, a decidable
+    syntactic condition; the driver evaluates it on every real instance): formals pairwise
+    distinct; no formal mentioned by an actual; no actual reads the configuration; every name
+    bound in the callee's body (loop variable, allocation, window) is fresh where it is bound:
+    mentioned neither by an actual nor by an enclosing binder (`bindersFreshL`).  The real
+    `DoInline` renames the bound names to fresh copies (`Alpha_Rename`); the model keeps them. -/
 theorem inline_correct_partial {f : Proc} {args : List Expr} {B : List Stmt}
     (hi : inline f args = some B) (hwf : inlineWf f args = true) (σ : State V)
     {ce : List (Sym × Int)} {cv : List (Sym × View)}
